@@ -169,6 +169,17 @@ func nodeOf(v any) *yNode {
 // tagNode sprinkles !reset / !override over a document (never on the root, never inside a tagged node; !override only
 // on strings and collections: yaml.v3 decodes any other scalar that carries a custom tag as a string).
 func tagNode(r *rand.Rand, d *yNode, depth int, rate int) *yNode {
+	if d.Kind == "map" {
+		for _, k := range d.Keys {
+			if k == "extends" {
+				// out of the composed model's domain: ApplyExtends hands the !reset / !override processors to the
+				// merge of base and service (loader.applyServiceExtends), so a tag at or below a service that extends
+				// another acts inside the extends stage too; `Pipeline.loadY` applies the tags to the accumulated model
+				// only (design/PIPELINE.md, "Out of scope").  No tag at or below such a service.
+				return d
+			}
+		}
+	}
 	if depth > 0 && r.Intn(rate) == 0 {
 		c := *d
 		if r.Intn(2) == 0 {
